@@ -4,6 +4,9 @@
 // its reach).  After every operation: size, every pair (operator[] and the three iterators) and to_string() must equal the
 // model's; has/get/get_all answers must equal the model's.
 #include "ada.h"
+extern "C" {
+#include "ada_c.h"
+}
 #include <cstdio>
 #include <string>
 #include <vector>
@@ -41,18 +44,22 @@ int main() {
   auto rnd = [&](unsigned n) { lcg = lcg * 1664525u + 1013904223u; return (lcg >> 16) % n; };
   for (unsigned h = 0; h < 6000; h++) {
     std::string init = INIT[rnd(5)];
-    ada::url_search_params sp(init); std::vector<P> m = parse(init); std::string hist = "init('" + init + "')";
+    ada::url_search_params sp(init); std::vector<P> m = parse(init);
+    /* C API handle driven in lock-step (C17) */ ada_url_search_params cp = ada_parse_search_params(init.data(), init.size()); std::string hist = "init('" + init + "')";
     for (unsigned step = 0; step < 14; step++) {
       std::string k = K[rnd(10)], v = V[rnd(9)]; unsigned op = rnd(11); std::string what;
       switch (op) {
-        case 0: case 1: sp.append(k, v); m.emplace_back(k, v); hist += " append(" + k + "," + v + ")"; break;
-        case 2: case 3: { sp.set(k, v); bool f = false; for (size_t i = 0; i < m.size();) { if (m[i].first == k) { if (!f) { m[i].second = v; f = true; i++; } else m.erase(m.begin() + i); } else i++; } if (!f) m.emplace_back(k, v); hist += " set(" + k + "," + v + ")"; break; }
-        case 4: sp.remove(k); for (size_t i = 0; i < m.size();) { if (m[i].first == k) m.erase(m.begin() + i); else i++; } hist += " remove(" + k + ")"; break;
-        case 5: sp.remove(k, v); for (size_t i = 0; i < m.size();) { if (m[i].first == k && m[i].second == v) m.erase(m.begin() + i); else i++; } hist += " remove(" + k + "," + v + ")"; break;
-        case 6: case 7: { sp.sort(); std::vector<P> s2; for (auto& e : m) { size_t j = s2.size(); while (j > 0 && utf16(e.first) < utf16(s2[j - 1].first)) j--; s2.insert(s2.begin() + j, e); } m = s2; hist += " sort()"; break; }
-        case 8: { bool a = sp.has(k), b = false; for (auto& e : m) if (e.first == k) b = true; bool a2 = sp.has(k, v), b2 = false; for (auto& e : m) if (e.first == k && e.second == v) b2 = true; if (a != b || a2 != b2) what = "has(" + k + ")"; hist += " has(" + k + ")"; break; }
-        case 9: { auto g = sp.get(k); const P* f = nullptr; for (auto& e : m) if (e.first == k) { f = &e; break; } if (bool(g) != bool(f) || (g && std::string(*g) != f->second)) what = "get(" + k + ")"; auto all = sp.get_all(k); std::vector<std::string> wa; for (auto& e : m) if (e.first == k) wa.push_back(e.second); if (all != wa) what = "get_all(" + k + ")"; hist += " get(" + k + ")"; break; }
-        default: { std::string s = ser(m); if (rnd(2)) s = "?" + s; sp.reset(s); m = parse(s); hist += " reset(" + s + ")"; break; }
+        case 0: case 1: ada_search_params_append(cp, k.data(), k.size(), v.data(), v.size()); sp.append(k, v); m.emplace_back(k, v); hist += " append(" + k + "," + v + ")"; break;
+        case 2: case 3: { ada_search_params_set(cp, k.data(), k.size(), v.data(), v.size()); sp.set(k, v); bool f = false; for (size_t i = 0; i < m.size();) { if (m[i].first == k) { if (!f) { m[i].second = v; f = true; i++; } else m.erase(m.begin() + i); } else i++; } if (!f) m.emplace_back(k, v); hist += " set(" + k + "," + v + ")"; break; }
+        case 4: ada_search_params_remove(cp, k.data(), k.size()); sp.remove(k); for (size_t i = 0; i < m.size();) { if (m[i].first == k) m.erase(m.begin() + i); else i++; } hist += " remove(" + k + ")"; break;
+        case 5: ada_search_params_remove_value(cp, k.data(), k.size(), v.data(), v.size()); sp.remove(k, v); for (size_t i = 0; i < m.size();) { if (m[i].first == k && m[i].second == v) m.erase(m.begin() + i); else i++; } hist += " remove(" + k + "," + v + ")"; break;
+        case 6: case 7: { ada_search_params_sort(cp); sp.sort(); std::vector<P> s2; for (auto& e : m) { size_t j = s2.size(); while (j > 0 && utf16(e.first) < utf16(s2[j - 1].first)) j--; s2.insert(s2.begin() + j, e); } m = s2; hist += " sort()"; break; }
+        case 8: { bool a = sp.has(k), b = false; for (auto& e : m) if (e.first == k) b = true; bool a2 = sp.has(k, v), b2 = false; for (auto& e : m) if (e.first == k && e.second == v) b2 = true; if (a != b || a2 != b2) what = "has(" + k + ")"; if (ada_search_params_has(cp, k.data(), k.size()) != b || ada_search_params_has_value(cp, k.data(), k.size(), v.data(), v.size()) != b2) what = "C API has/has_value(" + k + "," + v + ")"; hist += " has(" + k + ")"; break; }
+        case 9: { auto g = sp.get(k); const P* f = nullptr; for (auto& e : m) if (e.first == k) { f = &e; break; } if (bool(g) != bool(f) || (g && std::string(*g) != f->second)) what = "get(" + k + ")"; auto all = sp.get_all(k); std::vector<std::string> wa; for (auto& e : m) if (e.first == k) wa.push_back(e.second); if (all != wa) what = "get_all(" + k + ")"; { ada_string cg = ada_search_params_get(cp, k.data(), k.size()); if (f ? (cg.data == nullptr || std::string(cg.data, cg.length) != f->second) : (cg.length != 0)) what = "C API get(" + k + ")"; ada_strings ca = ada_search_params_get_all(cp, k.data(), k.size()); if (ada_strings_size(ca) != wa.size()) what = "C API get_all size"; else for (size_t i = 0; i < wa.size(); i++) { ada_string e = ada_strings_get(ca, i); if (std::string(e.data, e.length) != wa[i]) what = "C API get_all"; } ada_free_strings(ca); } hist += " get(" + k + ")"; break; }
+        default: { std::string s = ser(m);
+          // reset with an UNRELATED init string too - in particular the empty ones, which must still empty the list (seed C12-4)
+          switch (rnd(6)) { case 0: s = ""; break; case 1: s = "?"; break; case 2: s = "&"; break; case 3: s = "x=1&&y&=z"; break; default: break; }
+          if (rnd(2) && (s.empty() || s[0] != '?')) s = "?" + s; ada_search_params_reset(cp, s.data(), s.size()); sp.reset(s); m = parse(s); hist += " reset(" + s + ")"; break; }
       }
       runs++;
       if (what.empty()) {
@@ -63,8 +70,17 @@ int main() {
             while (ks.has_next() && vs.has_next() && es.has_next() && i < m.size()) { auto kk = ks.next(); auto vv = vs.next(); auto ee = es.next(); if (!kk || !vv || !ee || *kk != m[i].first || *vv != m[i].second || ee->first != m[i].first || ee->second != m[i].second) what = "iterator at " + std::to_string(i); i++; }
             if (what.empty() && (i != m.size() || ks.has_next() || vs.has_next() || es.has_next())) what = "iterator length"; } }
       }
+      if (what.empty()) {   // the C handle must show the same list
+        if (ada_search_params_size(cp) != m.size()) what = "C API size";
+        else { ada_owned_string os = ada_search_params_to_string(cp); if (std::string(os.data, os.length) != ser(m)) what = "C API to_string '" + std::string(os.data, os.length) + "' != '" + ser(m) + "'"; ada_free_owned_string(os);
+          ada_url_search_params_entries_iter it = ada_search_params_get_entries(cp); size_t i = 0;
+          while (ada_search_params_entries_iter_has_next(it) && i < m.size()) { ada_string_pair e = ada_search_params_entries_iter_next(it); if (std::string(e.key.data, e.key.length) != m[i].first || std::string(e.value.data, e.value.length) != m[i].second) what = "C API entries iterator at " + std::to_string(i); i++; }
+          if (what.empty() && (i != m.size() || ada_search_params_entries_iter_has_next(it))) what = "C API entries iterator length";
+          ada_free_search_params_entries_iter(it); }
+      }
       if (!what.empty()) { bad++; if (bad <= 5) printf("SPMODEL-FAIL %s after: %s\n", what.c_str(), hist.c_str()); break; }
     }
+    ada_free_search_params(cp);
   }
   printf("SPMODEL runs=%lu bad=%lu\n", runs, bad);
   return 0;
